@@ -215,15 +215,21 @@ def _top(f: FuncInfo) -> FuncInfo:
     return f
 
 
-def _enclosing_for(fn_node: ast.AST, target: ast.AST) -> Optional[ast.For]:
-    best = None
+def _innermost_containing(fn_node: ast.AST, target: ast.AST, types) -> Optional[ast.AST]:
+    """The innermost statement of the given types that contains target (by containment, not by line
+    number: inlined code keeps the line numbers of where it came from)."""
+    cands = []
     for n in walk_local(fn_node):
-        if isinstance(n, ast.For):
-            for sub in ast.walk(n):
-                if sub is target:
-                    if best is None or (n.lineno >= best.lineno):
-                        best = n
-    return best
+        if isinstance(n, types) and any(sub is target for sub in ast.walk(n)) and n is not target:
+            cands.append(n)
+    for c in cands:
+        if not any(o is not c and any(x is o for x in ast.walk(c)) for o in cands):
+            return c
+    return None
+
+
+def _enclosing_for(fn_node: ast.AST, target: ast.AST) -> Optional[ast.For]:
+    return _innermost_containing(fn_node, target, ast.For)
 
 
 @_cached('runners')
@@ -254,14 +260,7 @@ def worker_entry(ctx: Ctx) -> FuncInfo:
 
 
 def enclosing_loop_of(fn_node: ast.AST, target: ast.AST):
-    best = None
-    for n in walk_local(fn_node):
-        if isinstance(n, (ast.For, ast.While)):
-            for sub in ast.walk(n):
-                if sub is target:
-                    if best is None or n.lineno >= best.lineno:
-                        best = n
-    return best
+    return _innermost_containing(fn_node, target, (ast.For, ast.While))
 
 
 # ----------------------------------------------------------------------------------------
